@@ -65,7 +65,9 @@ CASES = [
     ("m-c04-labels-param", "C04", "fire", "xdis/bytecode.py", "        is_jump_target = i in labels\n", "        is_jump_target = offset in labels and i != 0\n", "is_jump_target"),
     ("m-c04-wordcode-send", "C04", "fire", "xdis/wordcode.py", "opc.opname[op] in (\"FOR_ITER\", \"SEND\")", "opc.opname[op] in (\"FOR_ITER\",)", "SEND:label"),
     # ---------------- C05
-    ("m-c05-sign", "C05", "fire", "xdis/cross_dis.py", "                if line_delta >= 0x80:", "                if line_delta > 0x80:", "line-advance"),
+    ("m-c05-sign", "C05", "fire", "xdis/cross_dis.py", "                if signed_line_delta and line_delta >= 0x80:", "                if signed_line_delta and line_delta > 0x80:", "line-advance"),
+    ("m-c05-unsigned-gate", "C05", "fire", "xdis/opcodes/base.py", "    if version_tuple is None or version_tuple <= (3, 5):\n        loc[\"findlinestarts\"] = findlinestarts_unsigned", "    if version_tuple is None or version_tuple <= (3, 6):\n        loc[\"findlinestarts\"] = findlinestarts_unsigned", "line-delta-signedness"),
+    ("m-c05-unsigned-dropped", "C05", "fire", "xdis/cross_dis.py", "    return findlinestarts(code, dup_lines=dup_lines, signed_line_delta=False)", "    return findlinestarts(code, dup_lines=dup_lines)", "line-delta-signedness"),
     ("m-c05-310-128", "C05", "fire", "xdis/codetype/code310.py", "            if line_delta != -128:", "            if line_delta != -127:", "minus128"),
     ("m-c05-emit-after", "C05", "fire", "xdis/cross_dis.py", "                    if offset >= bytecode_len:\n                        # The rest of the ``lnotab byte offsets are past the end of\n                        # the bytecode; any line numbers for these have been removed.\n                        return\n                    offset += byte_incr",
      "                    offset += byte_incr\n                    if offset >= bytecode_len:\n                        return", ""),  # behaviour change only for entries past the end: tolerated -> silent
@@ -137,7 +139,7 @@ CASES = [
     ("m-c16-native-cache", "C16", "fire", "xdis/codetype/code311.py", "        code = deepcopy(self)\n        code.freeze()\n        try:\n            code.check()\n        except AssertionError as e:\n            raise TypeError(e)\n\n        return types.CodeType(\n            code.co_argcount,\n            code.co_posonlyargcount,\n            code.co_kwonlyargcount,\n            code.co_nlocals,\n            code.co_stacksize,\n            code.co_flags,\n            code.co_code,\n            code.co_consts,\n            code.co_names,\n            code.co_varnames,\n            code.co_filename,\n            code.co_name,\n            code.co_qualname,",
      "        if getattr(self, \"_frozen\", None) is not None:\n            code = self._frozen\n        else:\n            code = deepcopy(self)\n            code.freeze()\n            self._frozen = code\n        try:\n            code.check()\n        except AssertionError as e:\n            raise TypeError(e)\n\n        return types.CodeType(\n            code.co_argcount,\n            code.co_posonlyargcount,\n            code.co_kwonlyargcount,\n            code.co_nlocals,\n            code.co_stacksize,\n            code.co_flags,\n            code.co_code,\n            code.co_consts,\n            code.co_names,\n            code.co_varnames,\n            code.co_filename,\n            code.co_name,\n            code.co_qualname,", "fresh-object"),
     ("m-c12-backward-startswith", "C12", "fire", "xdis/bytecode.py", "\"JUMP_BACKWARD\" in opname", "opname.startswith(\"JUMP_BACKWARD\")", "C04-R1"),
-    ("m-c20-linedelta-boundary", "C20", "fire", "xdis/cross_dis.py", "            if line_delta >= 0x80:", "            if line_delta > 0x80:", "C05-R2"),
+    ("m-c20-linedelta-boundary", "C20", "fire", "xdis/cross_dis.py", "                if signed_line_delta and line_delta >= 0x80:", "                if signed_line_delta and line_delta > 0x80:", "C05-R2"),
     ("m-c13-long-noref", "C13", "fire", "xdis/unmarshal.py", "        if n < 0:\n            d = long(d * -1)", "        if n < 0:\n            return long(-d)", "C01-R3"),
     ("m-c19-divmod-256", "C19", "fire", "xdis/codetype/code30.py", "            while offset_diff >= 256:\n                co_lnotab += bytearray([255, 0])\n                offset_diff -= 255\n",
      "            if offset_diff >= 256:\n                extra, offset_diff = divmod(offset_diff, 256)\n                co_lnotab += bytearray([255, 0]) * extra\n", "conservation:address"),
